@@ -128,9 +128,11 @@ def main(tier):
                 continue
             ks = sorted(set(rng.sample(range(1, eff + 1), min(eff, 6))))
         else:
-            # every effectful call for the plain prior states; every third one when a crashed restore came first or the index is
-            # still format 1 (the whole product did not finish within two hours on a loaded machine)
-            ks = range(1, eff + 1) if not (m["stale"] or m.get("v1index")) else range(1 + len(crash_scns) % 3, eff + 1, 3)
+            # every second effectful call for the plain prior states; every fifth one when a crashed restore came first or the
+            # index is still format 1 (the whole product did not finish within two hours on a loaded machine)
+            # (thinned again when a sixth experiment joined every history: every 2nd / every 5th, with a rotating offset)
+            ks = (range(1 + len(crash_scns) % 2, eff + 1, 2) if not (m["stale"] or m.get("v1index"))
+                  else range(1 + len(crash_scns) % 5, eff + 1, 5))
         seed = rng.randrange(1 << 30)
         for c in ks:
             crash_scns.append(scenario(random.Random(seed), len(crash_scns), crash=c, defect=m["defect"], prior=m["prior"],
